@@ -250,3 +250,18 @@ CHECKS["C20"] = dict(
     assumptions=["assigning flat elements() ranges of equal length is valid whatever the extents (only a different element count is probed there)", "index bases of empty dimensions are unobservable: empty views are not probed",
                  "other contracts (partitioned/chunked with a non-divisor, dropped/taked beyond size, strided with a non-divisor) are not promised by the property and not decided"],
 )
+
+CHECKS["C12"] = dict(
+    title="projection views", level="model_checking", engine="E1",
+    claim=("At every E1 view state (depth 2 quick / 3 thorough; roots of int and of struct{int a,b,c} elements, D=1..3, reached through mutable AND const roots) every projection is applied and checked at EVERY index tuple "
+           "through call syntax and brackets: element_transformed with a by-value function (value = f(source) at access time: the source is modified between two reads) and with reference-returning functions (address identity, "
+           "write-through), static_array_cast<T, T const*>, const_array_cast, as_const (address identity, const elements), member_cast of two members (address of that member), same-size reinterpret_array_cast<U>() and "
+           "reinterpret_array_cast<U>(n) (trailing dimension over the element's bytes); each projection is composed with one more view operation (rotated, sliced, index, transposed, ()) and an array is constructed from it "
+           "(and from a view of convertible element type) with extents and element-wise values compared."),
+    jobs=lambda tier: [Job("projmc", cfg="san-nd", defs=["-DONLY_RANK=%d" % r, "-DPJ_ELEM=%d" % e], args=["--tier=" + tier]) for r in (1, 2, 3) for e in (0, 1)],
+    extra=lambda tier: __import__("probes").c12_probes(tier),
+    rule=("E1 breadth-first search supplies (real view, model) pairs; per state and projection all index tuples are enumerated; the model gives the source offset of each tuple, so expected values/addresses come from the "
+          "root buffer, not from the library. Built with -DNDEBUG + ASan/UBSan (the model is the oracle). distinct_nontrivial = non-empty states with >= 2 elements."),
+    assumptions=["member_cast / reinterpret_array_cast / static_array_cast on views whose element pointer is pointer-to-const (some const paths) do not compile on this tree: not generated (api gap)",
+                 "layout scaling of re-based sources asserts offset==0 (library TODO): sources are zero-based", "g++ 12 -O0 -DNDEBUG ASan+UBSan"],
+)
